@@ -420,7 +420,7 @@ Section SM.
   Proof.
     intros m v k. unfold sm_insert, stale; rewrite ?slot_at_eq.
     destruct (nth_error (slots m) (N.to_nat (kidx k))) as [sk|] eqn:Hk; [|discriminate]. intros Hb.
-    destruct (nth_error (slots m) (N.to_nat (free_head m))) as [s|] eqn:Hs; cbn [fst]; rewrite slot_at_eq; cbn [slots].
+    destruct (nth_error (slots m) (N.to_nat (free_head m))) as [s|] eqn:Hs; cbn [fst slots].
     - assert (Hlt : (N.to_nat (free_head m) < length (slots m))%nat) by (apply nth_error_Some; congruence).
       destruct (Nat.eq_dec (N.to_nat (free_head m)) (N.to_nat (kidx k))) as [He|Hn].
       + rewrite <- He, nth_error_set_nth_eq by assumption. cbn [sver]. rewrite <- He, Hs in Hk. inversion Hk; subst.
